@@ -459,6 +459,8 @@ func (s *session) execAndWriteResults(statements string, parameters []*schema.Na
 		return err
 	}
 
+	affected := 0
+
 	for _, stmt := range stmts {
 		switch st := stmt.(type) {
 		case *sql.UseDatabaseStmt:
@@ -471,10 +473,20 @@ func (s *session) execAndWriteResults(statements string, parameters []*schema.Na
 				return err
 			}
 		default:
-			if err = s.exec(st, parameters, resultColumnFormatCodes, extQueryMode); err != nil {
+			n, err := s.exec(st, parameters, resultColumnFormatCodes, extQueryMode)
+			if err != nil {
 				return err
 			}
+			affected += n
 		}
+	}
+
+	// INSERT oid rows / UPDATE rows / DELETE rows: report the rows the statements changed
+	switch tag {
+	case "INSERT 0 0":
+		tag = fmt.Sprintf("INSERT 0 %d", affected)
+	case "UPDATE 0", "DELETE 0":
+		tag = fmt.Sprintf("%s %d", strings.TrimSuffix(tag, " 0"), affected)
 	}
 
 	_, err = s.writeMessage(bm.CommandComplete([]byte(tag)))
@@ -1218,7 +1230,8 @@ func (s *session) query(st sql.DataSource, parameters []*schema.NamedParam, resu
 	})
 }
 
-func (s *session) exec(st sql.SQLStmt, namedParams []*schema.NamedParam, resultColumnFormatCodes []int16, skipRowDesc bool) error {
+// exec runs the statement and returns the number of rows it changed.
+func (s *session) exec(st sql.SQLStmt, namedParams []*schema.NamedParam, resultColumnFormatCodes []int16, skipRowDesc bool) (int, error) {
 	params := make(map[string]interface{}, len(namedParams))
 
 	for _, p := range namedParams {
@@ -1227,13 +1240,31 @@ func (s *session) exec(st sql.SQLStmt, namedParams []*schema.NamedParam, resultC
 
 	tx, err := s.sqlTx()
 	if err != nil {
-		return err
+		return 0, err
 	}
 
-	ntx, _, err := s.db.SQLExecPrepared(s.ctx, tx, []sql.SQLStmt{st}, params)
-	s.tx = ntx
+	// inside a transaction block UpdatedRows accumulates over the statements
+	before := 0
+	if tx != nil {
+		before = tx.UpdatedRows()
+	}
 
-	return err
+	ntx, ctxs, err := s.db.SQLExecPrepared(s.ctx, tx, []sql.SQLStmt{st}, params)
+	s.tx = ntx
+	if err != nil {
+		return 0, err
+	}
+
+	// rows changed by this statement: in the transaction left open or in the ones it committed
+	affected := -before
+	if ntx != nil {
+		affected += ntx.UpdatedRows()
+	}
+	for _, ctx := range ctxs {
+		affected += ctx.UpdatedRows()
+	}
+
+	return affected, nil
 }
 
 type portal struct {
